@@ -51,6 +51,8 @@ def writers():
 def writer_outputs(rng, n=6):
     """(format name, document) for every writer on n random plain caption sets"""
     for i in range(n):
-        a = abstract_set(rng, nlang=1, start=2000000)
+        # cues spaced >= 2 s apart: the SCC writer needs transmission time between cues (C17's precondition);
+        # an SCC stream with overlapping transmissions is not a well-formed document
+        a = abstract_set(rng, nlang=1, start=4000000, max_lines=2, gap_choices=(2000000, 3000000, 5000000))
         for name, W in writers().items():
             yield name, W().write(build_set(a))
